@@ -189,7 +189,14 @@ func H_SELF_instantiate(i int) {
 	verifReverseMapOrder(true)
 	b := vscRender(src)
 	verifReverseMapOrder(false)
-	verifAssert(a == b, "C10: the node graph the runtime builds does not depend on map iteration order (ghost)")
+	// ascending and descending by key: these do not cancel out when one map
+	// is filled by ranging over another
+	verifKeyMapOrder(1)
+	c := vscRender(src)
+	verifKeyMapOrder(-1)
+	d := vscRender(src)
+	verifKeyMapOrder(0)
+	verifAssert(a == b && a == c && a == d, "C10: the node graph the runtime builds does not depend on map iteration order (ghost)")
 	verifCover("self-test instantiated")
 	verifCover("self-test instantiate " + name + " " + a)
 }
